@@ -5,7 +5,7 @@ import SciVerif.Tie.Pins
 /-! Tie A obligations for C18 on the current source. -/
 namespace SciVerif.Tie
 -- functions the model relies on without an obligation of its own naming them (pinned by bin/mkpins):
--- PIN-ALSO: Scipipe.Process_initPortsFromCmdPattern
+-- PIN-ALSO: Scipipe.Process_initPortsFromCmdPattern Components.NewStreamToSubStream Components.StreamToSubStream_In Components.StreamToSubStream_OutSubStream
 open SciVerif.Generated
 
 /-- `NewTask` drains the carrier's sub-stream port until it is closed, for joined ports with a
@@ -48,12 +48,16 @@ theorem generated_substream_component_and_audit :
 
 
 
+
 -- BEGIN PINS (written by bin/mkpins; do not edit by hand)
 /-- the Go functions this property's model and obligations were written against have exactly the
 pinned skeletons (SHA-256 prefix of the atom list) -/
 theorem pinned_skeletons_c18 :
     pinsOk
     [("Components.#decls", "84eddb1c2309452c"),
+     ("Components.NewStreamToSubStream", "ce8b00b0893c5c85"),
+     ("Components.StreamToSubStream_In", "338c289a3d0957ee"),
+     ("Components.StreamToSubStream_OutSubStream", "5e0e80c1d90b04ed"),
      ("Components.StreamToSubStream_Run", "3877054697bb0416"),
      ("Scipipe.#decls", "08e57e98702ecd70"),
      ("Scipipe.NewTask", "95298f03c320cb96"),
